@@ -6,6 +6,7 @@ import (
 	"runtime/debug"
 	"sort"
 	"strings"
+	"sync"
 	"time"
 
 	"golang.org/x/tools/go/ssa"
@@ -13,7 +14,7 @@ import (
 
 func (e *Engine) newVC(fn *ssa.Function, c *Contract, dropped map[string]bool) *VC {
 	vc := &VC{e: e, fn: fn, c: c, vals: map[ssa.Value]*Val{}, globals: map[*ssa.Global]string{}, strlits: map[string]string{},
-		obCount: map[string]int{}, dropped: dropped, trusted: map[string]bool{}, callees: map[string]bool{}}
+		obCount: map[string]int{}, dropped: dropped, trusted: map[string]bool{}, callees: map[string]bool{}, csHit: map[*CallSite]bool{}, obReturn: map[*Obligation]*ssa.Return{}}
 	if c != nil && c.Mode == "int" {
 		vc.intMode = true
 	}
@@ -22,7 +23,11 @@ func (e *Engine) newVC(fn *ssa.Function, c *Contract, dropped map[string]bool) *
 	return vc
 }
 
+var genMu sync.Mutex
+
 func (e *Engine) genVC(fn *ssa.Function, dropped map[string]bool) (vc *VC, err error) {
+	genMu.Lock()
+	defer genMu.Unlock()
 	c := e.contractFor(fn)
 	vc = e.newVC(fn, c, dropped)
 	defer func() {
@@ -35,6 +40,13 @@ func (e *Engine) genVC(fn *ssa.Function, dropped map[string]bool) (vc *VC, err e
 		}
 	}()
 	vc.run()
+	if c != nil {
+		for _, cs := range c.CallSites {
+			if !vc.csHit[cs] {
+				return vc, fmt.Errorf("contract error: callsite %s#%d not found in %s", cs.Name, cs.K, fn)
+			}
+		}
+	}
 	return vc, nil
 }
 
